@@ -378,31 +378,35 @@ func c11parseIns(s string) []c11ins {
 // hTableStr prints the snapshot of an instance's table, registering tags.
 func hTableStr(inst *portalwire.VerifHInstance, t *hTags) string { return hTableStrU(inst, t, nil) }
 
-// hFirstEndpoints: for every id of the insert list the endpoint of the FIRST record inserted for it - the only endpoint a
-// liveness flag set at insertion can refer to.
+// hUncheckedEndpoints: for every id of the insert list the endpoints of the records that were inserted WITH the liveness flag.
+// A liveness flag is only ever set when such a record enters the table, so an entry can be liveness-checked only if its
+// current record has one of these endpoints (a later record update to another address or port is unchecked).
 type hEndpoint struct {
 	ip   netip.Addr
 	port int
 }
 
-func hUncheckedEndpoints(ins []c11ins) map[enode.ID]hEndpoint {
-	first := map[enode.ID]hEndpoint{}
+func hUncheckedEndpoints(ins []c11ins) map[enode.ID][]hEndpoint {
+	checked := map[enode.ID][]hEndpoint{}
 	for _, x := range ins {
 		n, err := hNodeFromBytes(x.enr)
 		if err != nil {
 			continue
 		}
-		if _, ok := first[n.ID()]; !ok {
-			first[n.ID()] = hEndpoint{n.IPAddr(), n.UDP()}
+		if _, ok := checked[n.ID()]; !ok {
+			checked[n.ID()] = nil
+		}
+		if x.live {
+			checked[n.ID()] = append(checked[n.ID()], hEndpoint{n.IPAddr(), n.UDP()})
 		}
 	}
-	return first
+	return checked
 }
 
-// hTableStrU: as hTableStr; an entry whose current record has another endpoint than the first record inserted for it (a record
-// update with a new address or port took place) is reported as not live whatever the table's flag says: that endpoint was
+// hTableStrU: as hTableStr; an entry whose current record has an endpoint that no record inserted with the liveness flag had (a
+// record update with a new address or port took place) is reported as not live whatever the table's flag says: that endpoint was
 // never liveness-checked (ground truth of the insert history).
-func hTableStrU(inst *portalwire.VerifHInstance, t *hTags, first map[enode.ID]hEndpoint) string {
+func hTableStrU(inst *portalwire.VerifHInstance, t *hTags, checked map[enode.ID][]hEndpoint) string {
 	snap := inst.Snapshot()
 	bs := make([]string, len(snap))
 	for bi, b := range snap {
@@ -416,8 +420,13 @@ func hTableStrU(inst *portalwire.VerifHInstance, t *hTags, first map[enode.ID]hE
 			l := 0
 			if e.Live {
 				l = 1
-				if fe, ok := first[e.Node.ID()]; ok && (fe.ip != e.Node.IPAddr() || fe.port != e.Node.UDP()) {
+				if eps, ok := checked[e.Node.ID()]; ok {
 					l = 0
+					for _, ep := range eps {
+						if ep.ip == e.Node.IPAddr() && ep.port == e.Node.UDP() {
+							l = 1
+						}
+					}
 				}
 			}
 			es[i] = hRecStr(t.tag(eb), e.Node, len(eb), true) + ":" + strconv.Itoa(l)
